@@ -20,6 +20,14 @@ Pool6 == { <<"a">>, <<"a","b">>, <<"a",":",":","a">>, <<"a",":",":","a",":",":",
            <<"a",":",":","b">>, <<":",":","a">> }
 Pool4 == { <<"a">>, <<"a",":",":","b">>, <<"a",":",":","b",":",":","a">>, <<"b">> }
 Pool4b == { <<"a">>, <<"a",":",":","a">>, <<"a",":",":","a",":",":","b">>, <<"a","b">> }
+\* names whose length in characters says nothing about their depth: a long name of one component next to short names
+\* of two and three, and targets two and three components below them
+PoolLong == { <<"b","b","b","b","b","b","b","b","b","b">>, <<"a",":",":","b">>, <<"a",":",":","b",":",":","a">>, <<"a">>,
+              <<"b","b","b","b","b","b",":",":","a">> }
+TargetsLong == { <<"a">>, <<"a",":",":","b">>, <<"a",":",":","b",":",":","a">>, <<"a",":",":","b",":",":","a",":",":","b">>,
+                 <<"a",":",":","b",":",":","b",":",":","b">>, <<"a",":",":","a",":",":","a">>, <<"b","b","b","b","b","b","b","b","b","b">>,
+                 <<"b","b","b","b","b","b","b","b","b","b",":",":","a",":",":","a">>, <<"b","b","b","b","b","b",":",":","a",":",":","a",":",":","a">>,
+                 <<"b">>, <<>> }
 AppLists3 == { <<>>, <<"A">>, <<"B","A">> }
 AppLists4 == { <<>>, <<"A">>, <<"B","A">>, <<"A","A">> }
 
